@@ -31,8 +31,7 @@ func (s *Server) References(ctx context.Context, params *protocol.ReferenceParam
 }
 
 // nameRange is the range of a symbol's lexeme given where it starts. The syntax tree records no
-// End for the names in directives, and the End of an account token lies past a single blank
-// that precedes ';', ')' or ']', so the end is derived from the name itself.
+// End for the names in account directives, so the end is derived from the name itself.
 func nameRange(start ast.Position, name string) ast.Range {
 	return ast.Range{
 		Start: start,
